@@ -330,7 +330,9 @@ func c07Marshal(c *fw.Ctx) {
 			return m.MarshalToDocument(v)
 		})
 		// and as a template for unmarshal
-		c07Call(c, "UnmarshalFromCBEDocument(template)", desc, func() (interface{}, error) { return ce.UnmarshalFromCBEDocument([]byte{0x81, 0x00, 0x9a, 0x01, 0x9b}, v, cfg) })
+		c07Call(c, "UnmarshalFromCBEDocument(template)", desc, func() (interface{}, error) {
+			return ce.UnmarshalFromCBEDocument([]byte{0x81, 0x00, 0x9a, 0x01, 0x9b}, v, cfg)
+		})
 		c07Call(c, "UnmarshalFromCTEDocument(template)", desc, func() (interface{}, error) { return ce.UnmarshalFromCTEDocument([]byte("c0 {\"a\"=1}"), v, cfg) })
 	}
 }
